@@ -1263,6 +1263,14 @@ F12_PROGRAMS = [
 
 
 _ENG = "dept/eng/alice"
+# a batch of requests whose answers a concurrent writer flips TOGETHER: every one-at-a-time order answers all-before or
+# all-after, never a mixture (batch_enforce is ONE reading call)
+BATCH_PROGRAMS = [
+    [[("batch_enforce", [[["alice", "data2", "read"], ["alice", "data2", "write"]]], {})], [("delete_role_for_user", ["alice", "data2_admin"], {})]],
+    [[("batch_enforce", [[["carol", "data2", "read"], ["carol", "data2", "write"]]], {})], [("add_role_for_user", ["carol", "data2_admin"], {})]],
+    [[("batch_enforce", [[["alice", "data2", "read"], ["alice", "data2", "write"], ["alice", "data2", "read"]]], {})], [("delete_user", ["alice"], {})]],
+    [[("batch_enforce", [[["alice", "data2", "read"], ["alice", "data2", "write"]]], {})], [("delete_role", ["data2_admin"], {})], [("enforce", ["alice", "data2", "read"], {})]],
+]
 PATTERN_PROGRAMS = [
     ("pattern", [[("enforce", [_ENG, "data1", "read"], {})], [("enforce", [_ENG, "data1", "read"], {})]]),
     ("pattern", [[("enforce", [_ENG, "data2", "read"], {})], [("get_implicit_roles_for_user", [_ENG], {})]]),
@@ -1306,7 +1314,7 @@ def run(ctx):
         seq_equiv(res, casbin, rng, 150 if q else 1500, 12)
         whitebox(res, casbin, rows, cls, rng)
         blackbox(res, casbin, cls, rng)
-        lin_check(res, casbin, rng, 160 if q else 700, 2 if q else 3, 12 if q else 40, 400 if q else 2000, extra_programs=F12_PROGRAMS + PATTERN_PROGRAMS, bad_rows=bad_rows, cls_of=cls)
+        lin_check(res, casbin, rng, 160 if q else 700, 2 if q else 3, 12 if q else 40, 400 if q else 2000, extra_programs=F12_PROGRAMS + BATCH_PROGRAMS + PATTERN_PROGRAMS, bad_rows=bad_rows, cls_of=cls)
     res.rule = (
         "purity observation of every reading callee on 3 sample enforcers; sequential histories (every public method alone + random histories of 12 calls "
         "over the whole API, four setups: plain RBAC, domains, RBAC with a role matching function, domains with role and domain matching "
